@@ -1222,7 +1222,7 @@ class Interp:
         if body_.get("k") == "block":
             kept = []
             for st_ in body_["stmts"]:
-                sp = self._separator_stmt(st_, snap_env)
+                sp = None  # the emptiness-test form is decided on the paths of the body (below), wherever it stands
                 exact = False
                 if sp is None and idx is not None:
                     sp = self._index_separator_stmt(st_, idx, snap_env)
@@ -1318,6 +1318,7 @@ class Interp:
         # earlier iterations appended.  The body is evaluated again with that part as an unknown; the one question a body may
         # ask about it is whether it is still empty (`if !acc.is_empty() { acc.push(' ') }`), which is the separator idiom:
         # decided below on the paths, wherever the test stands in the body.
+        guarded = set()  # accumulators whose separator goes with each piece: an element that appends nothing is left out
         carried = {name: S(list(snap_env[name]["parts"]) + [("h", H("carried", name, name=name, empty_before=not snap_env[name]["parts"]))]) for name, alts in deltas.items() if name != "__buf" and name not in seps and is_str(snap_env.get(name)) and any(d is not None for _, d in alts)}
         if carried:
             deltas, problems, err_paths = analyse(run_body(carried), carried)
@@ -1352,6 +1353,7 @@ class Interp:
                 if okp and sep_:
                     seps[name] = sep_
                     exact_sep.add(name)
+                    guarded.add(name)
                     deltas[name] = [(key_, d) for key_, d in firsts.items()] + [(cnd, None) for cnd, d in alts if not any(c0[0] == mark for c0 in cnd)]
                     for nm2, alts2 in list(deltas.items()):
                         if nm2 != name:
@@ -1377,11 +1379,17 @@ class Interp:
         for name, alts in deltas.items():
             if all(d is None for _, d in alts):
                 continue
-            if compose == "filter_map":
+            how_ = compose or "for"
+            if name in guarded:
+                el_ = [(cnd, {"v": "some", "x": d} if d is not None else {"v": "none"}) for cnd, d in alts] + [(c0, {"v": "none"}) for c0 in filtered]
+                how_ = "filter_map"
+            elif compose == "filter_map":
                 el_ = [(cnd, {"v": "some", "x": d if d is not None else S([])}) for cnd, d in alts] + [(c0, {"v": "none"}) for c0 in filtered]
             else:
                 el_ = [(cnd, d if d is not None else S([])) for cnd, d in alts]
-            mapped = {"v": "mapped", "of": under, "elems": el_, "how": compose or "for", "src": src(e["iter"])}
+                if name in exact_sep and any(d is None for _, d in alts):
+                    out_state.unknown.append("for-loop over a symbolic collection: a separator is written for every position but `%s` gets no piece on some path" % name)
+            mapped = {"v": "mapped", "of": under, "elems": el_, "how": how_, "src": src(e["iter"])}
             plain = {"v": "mapped", "of": coll, "elems": [(cnd, d if d is not None else S([])) for cnd, d in alts], "how": "for", "src": src(e["iter"])}
             if name == "__buf":
                 out_state.buf = out_state.buf + [("join", mapped, seps.get("__buf", ""))]
